@@ -71,6 +71,30 @@ def ledger_check(world, specs, witnesses, counts, require_complete=True):
         if model in ('fnf', 'push'):
             if require_complete and res != ('sent',):
                 bad('send-future-not-resolved', iid, result=res)
+            if model == 'fnf':
+                # "sent" means the whole frame was handed to the transport: an application that closes the connection
+                # as soon as the future resolves must not lose the rest of a fragmented payload
+                from .c14 import _iid_of
+                resolved = next((e['i'] for e in world.events if e['kind'] == 'sent_future_resolved' and e.get('iid') == iid),
+                                None)
+                first = next((e for e in world.events if e['kind'] == 'wire' and e['dir'] == 'send'
+                              and e['ep'] == spec['side'] and e['f'].get('type') == 'REQUEST_FNF' and _iid_of(e['f']) == iid),
+                             None)
+                if resolved is not None and first is not None:
+                    counts['sent_futures_checked'] = counts.get('sent_futures_checked', 0) + 1
+                    last = first['i']
+                    if first['f'].get('follows'):
+                        for e in world.events[first['i'] + 1:]:
+                            if e['kind'] == 'wire' and e['dir'] == 'send' and e['ep'] == spec['side'] \
+                                    and e['f'].get('sid') == first['f']['sid']:
+                                last = e['i']
+                                if not e['f'].get('follows'):
+                                    break
+                    if resolved < last:
+                        bad('send-future-resolved-before-the-frame-was-written', iid,
+                            fragments_still_to_write=sum(1 for e in world.events[resolved:last + 1]
+                                                         if e['kind'] == 'wire' and e['dir'] == 'send'
+                                                         and e['f'].get('sid') == first['f']['sid']))
             continue
         if model == 'rr':
             emitted = st.get('emitted', {}).get(DIR_RESPONSE, [])
